@@ -17,6 +17,16 @@ template <typename T> static std::vector<long long> scaled(std::vector<T> const&
     for (T x : v) r.push_back(std::isfinite(x) ? vt::mono_scaled(x, SC) : -1000000000LL);
     return r;
 }
+// |sum of the weights - 1| in units of the epsilon of T, the sum taken with 113 bits
+template <typename T> static long long sum_dev_eps(std::vector<T> const& v)
+{
+    __float128 s = 0;
+    for (T x : v) { if (!std::isfinite(x)) return 999999999; s += (__float128) x; }
+    __float128 d = s - 1;
+    if (d < 0) d = -d;
+    long double q = (long double) (d / (__float128) std::numeric_limits<T>::epsilon());
+    return q > 1e9L ? 999999999 : (long long) std::ceil(q);
+}
 template <typename T> static std::vector<long long> zeros(std::vector<T> const& v)
 {
     std::vector<long long> r;
@@ -91,14 +101,24 @@ static void init_cases(int n, vt::rng& g)
         chk.channels((std::size_t) n);
         auto v = chk.channel_weights();
         vt::ev("InitCase").s("T", vt::type_name<T>::get()).a("w", w).i("mn", mins[mi][0]).i("md", mins[mi][1])
-            .a("v", scaled(v)).a("zero", zeros(v)).i("fin", all_finite(v) ? 1 : 0).emit();
+            .a("v", scaled(v)).a("zero", zeros(v)).i("fin", all_finite(v) ? 1 : 0).i("sumEps", sum_dev_eps(v)).emit();
     }
     // default: uniform
     auto chk = hep::make_multi_channel_chkpt<T>();
     chk.channels((std::size_t) n);
     auto v = chk.channel_weights();
     vt::ev("InitCase").s("T", vt::type_name<T>::get()).a("w", std::vector<int>((std::size_t) n, 1)).i("mn", 0).i("md", 1)
-        .a("v", scaled(v)).a("zero", zeros(v)).i("fin", all_finite(v) ? 1 : 0).emit();
+        .a("v", scaled(v)).a("zero", zeros(v)).i("fin", all_finite(v) ? 1 : 0).i("sumEps", sum_dev_eps(v)).emit();
+    // ... also for channel counts that are not powers of two (1 / n is rounded in T, not in a narrower type)
+    if (n == 4)
+        for (int m : {5, 6, 7, 10, 11, 12})
+        {
+            auto c2 = hep::make_multi_channel_chkpt<T>();
+            c2.channels((std::size_t) m);
+            auto v2 = c2.channel_weights();
+            vt::ev("InitCase").s("T", vt::type_name<T>::get()).a("w", std::vector<int>((std::size_t) m, 1)).i("mn", 0).i("md", 1)
+                .a("v", scaled(v2)).a("zero", zeros(v2)).i("fin", all_finite(v2) ? 1 : 0).i("sumEps", sum_dev_eps(v2)).emit();
+        }
 }
 
 // arbitrary beta / data / minimum: invariants only
@@ -135,7 +155,7 @@ static void any_cases(int count, vt::rng& g)
         T sum = T();
         for (T x : v) sum += x;
         vt::ev("RefAny").s("T", vt::type_name<T>::get()).i("n", n).a("v", scaled(v)).a("zeroIn", zeros(w)).a("zeroOut", zeros(v))
-            .a("positive", positive).i("fin", all_finite(v) ? 1 : 0).i("sum", std::isfinite(sum) ? vt::mono_scaled(sum, SC) : -1)
+            .a("positive", positive).i("fin", all_finite(v) ? 1 : 0).i("sum", std::isfinite(sum) ? vt::mono_scaled(sum, SC) : -1).i("sumEps", sum_dev_eps(v))
             .i("floor", vt::mono_scaled(fl, SC)).i("noInfo", pz ? 1 : 0)
             .i("inId", vt::ids().id(vt::hexvec(w))).i("outId", vt::ids().id(vt::hexvec(v))).emit();
     }
@@ -198,7 +218,7 @@ static void real_run(int run, vt::rng& g)
         std::vector<long long> dpos;
         for (T x : r.adjustment_data()) dpos.push_back(x > T() ? 1 : 0);
         vt::ev("RunWeights").s("T", vt::type_name<T>::get()).i("run", run).i("k", (long long) k).a("v", scaled(v)).a("zeroOut", zeros(v))
-            .i("fin", all_finite(v) && all_finite(r.adjustment_data()) ? 1 : 0).i("sum", vt::mono_scaled(sum, SC)).i("floor", vt::mono_scaled(fl, SC))
+            .i("fin", all_finite(v) && all_finite(r.adjustment_data()) ? 1 : 0).i("sum", vt::mono_scaled(sum, SC)).i("sumEps", sum_dev_eps(v)).i("floor", vt::mono_scaled(fl, SC))
             .i("dataAllZero", dz ? 1 : 0).a("dataPos", dpos).i("prevId", prevId).i("id", id).emit();
         prevId = id;
     }
